@@ -17,6 +17,7 @@ using namespace uri3986;
 static const char K_UNIX[] = "C28/unix-socket-path";        // known-finding candidates (excluded by construction when listed)
 static const char K_FUT[] = "C28/ipvfuture-empty-tail";
 static const char K_PORT[] = "C28/port-range";
+static const char K_IP6[] = "C28/ip-literal-chars";
 
 // ---------------------------------------------------------------- observed components
 struct Comp {
@@ -181,7 +182,7 @@ static bool join_checked(const struct evhttp_uri *u, size_t hint, std::string *o
 }
 
 // ---------------------------------------------------------------- parse half
-struct Expect { bool defined = true, valid = true, unix_form = false, unix_affected = false, future_empty = false, bracketed = false, ncf_needed = false; Comp c; std::string join; std::string why; };
+struct Expect { bool defined = true, valid = true, unix_form = false, unix_affected = false, future_empty = false, ip6_chars = false, bracketed = false, ncf_needed = false; Comp c; std::string join; std::string why; };
 
 static Expect reference(const std::string &in, unsigned fl) {
   Expect e; Parts p = split_b(in);
@@ -216,7 +217,7 @@ static Expect reference(const std::string &in, unsigned fl) {
         e.c.userinfo = a.userinfo; if (a.userinfo.has && !valid_userinfo(a.userinfo.v)) bad("userinfo");
         std::string host = a.host;
         if (a.bracketed) { IpLit l = ip_literal(a.host); e.bracketed = true;
-          if (l.future_empty_tail) e.future_empty = true; else if (!l.ok) bad("IP-literal");
+          if (l.future_empty_tail) e.future_empty = true; else if (!l.ok && l.kind == 1) e.ip6_chars = true; else if (!l.ok) bad("IP-literal");
           if (fl & F_STRIP) host = a.host.substr(1, a.host.size() - 2); }
         else if (!valid_regname(a.host)) bad("reg-name");
         e.c.host = some(host);
@@ -278,6 +279,10 @@ static int parse_case(const std::string &in, unsigned fl, const GenInfo &gi) {
     if (verif_known(K_FUT)) verif_known_skipped(K_FUT);
     else VERIF_FAIL(K_FUT, "accepted an IPvFuture literal with nothing after the dot (RFC 3986: \"v\" 1*HEXDIG \".\" 1*( unreserved / sub-delims / \":\" )): \"%s\"", esc(in).c_str());
   }
+  if (!skip && e.ip6_chars) {
+    if (verif_known(K_IP6)) verif_known_skipped(K_IP6);
+    else VERIF_FAIL(K_IP6, "accepted an IP-literal containing bytes other than HEXDIG, ':' and '.': \"%s\"", esc(in).c_str());
+  }
   if (!skip) {
     CHECK(e.valid, "C28/accepts-non-rfc3986", "accepted \"%s\" (flags %#x) although its %s is not RFC 3986", esc(in).c_str(), fl, e.why.c_str());
     if (e.defined) {
@@ -320,14 +325,15 @@ static int setter_case(Src &s, unsigned fl) {
           if (l.kind == 0) want = 0;                                  // "[" without a closing "]" at the end
           else if (l.future_empty_tail) { want = -1; if (verif_known(K_FUT)) verif_known_skipped(K_FUT); }   // same root cause as the parse half
           else if (l.kind == 2) want = (v[1] == 'V') ? -1 : l.ok;      // upper-case "V": not asserted either way
-          else want = l.ok ? -1 : 0; }                                 // IPv6 structure is not judged here
+          else want = l.ok ? -1 : verif_known(K_IP6) ? -1 : 0; }       // IPv6 structure is not judged here, only its alphabet
         else want = valid_regname(v);
         rc = evhttp_uri_set_host(u, arg);
         if (rc == 0) { m.host = opt(arg); if (arg && v[0] == '[' && (fl & F_STRIP)) m.host = some(v.substr(1, v.size() - 2)); }
         if (want == -1) want = (rc == 0);
         break;
       case 3: name = "port"; { static const int P[] = {80, 0, -1, 65535, 65536, 1, 8080, -2, INT_MAX, INT_MIN, 99999, 443}; int p = P[s.below(12)]; v = std::to_string(p);
-        want = p >= -1; null = false; rc = evhttp_uri_set_port(u, p); if (rc == 0) m.port = p; } break;
+        want = p > 65535 ? -1 : p >= -1;                            // above 65535: refusing is fine, accepting obliges the round trip (K_PORT)
+        null = false; rc = evhttp_uri_set_port(u, p); if (rc == 0) m.port = p; if (want == -1) want = (rc == 0); } break;
       case 4: name = "query"; v = gen_query(s); arg = null ? NULL : v.c_str();
         want = null || ((fl & F_NCF) ? ncf_ok(v, "#") : valid_query_chars(v)); rc = evhttp_uri_set_query(u, arg); if (rc == 0) m.query = opt(arg); break;
       case 5: name = "fragment"; v = s.chance(1, 6) ? "a#b" : gen_query(s); arg = null ? NULL : v.c_str();
